@@ -334,14 +334,21 @@ pub const DERIVES: &[&str] = &[
     " ",
 ];
 
+const OPT_CHARS: &[char] = &[
+    'a', 'Z', '0', '_', '@', '$', '#', ' ', '"', '\\', '\'', '(', ')', '[', ']', '{', '}', ',', ':', ';', '=', '<', '>', '&', '%', '!', '?', '*', '+', '-', '/', '.', '\n', '\t', 'é', '名', '𝄞', 'ß',
+];
+
+fn random_option_string(t: &mut Tape, max: usize) -> String {
+    let n = t.choose(max + 1);
+    (0..n).map(|_| *t.pick(OPT_CHARS)).collect()
+}
+
 pub fn decode_options(t: &mut Tape) -> OptSpec {
-    // index 0 of every list is the quick-xml preset value
-    OptSpec {
-        prefix: t.pick(PREFIXES).to_string(),
-        text_id: t.pick(TEXT_IDS).to_string(),
-        derive: t.pick(DERIVES).to_string(),
-        by_name: t.chance(128),
-    }
+    // index 0 of every list is the quick-xml preset value; one option in four is a random string
+    let prefix = if t.chance(64) { random_option_string(t, 6) } else { t.pick(PREFIXES).to_string() };
+    let text_id = if t.chance(64) { random_option_string(t, 8) } else { t.pick(TEXT_IDS).to_string() };
+    let derive = if t.chance(64) { random_option_string(t, 40) } else { t.pick(DERIVES).to_string() };
+    OptSpec { prefix, text_id, derive, by_name: t.chance(128) }
 }
 
 /// case-folded alphanumerics: names with equal fold collide after PascalCase / snake_case normalisation
